@@ -204,7 +204,8 @@ CHECKS.update({
              "inputs, timing of the real parser on adversarial families in a killable child) then decides. The hand-written filter parser has a "
              "counting model (Model/FilterCost.lean) proved to return the parser's result with at most one parser-function call per input byte plus "
              "one (Props/C18Filter.lean), and receive's parse loop has one proved to make at most (messages returned + 1) <= n/2 + 1 decode attempts "
-             "(Props/C18Recv.lean); both counts are compared with the implementation's (profiler hook) and executed source lines "
+             "(Props/C18Recv.lean), and the BER filter decoder one proved to make at most n/2 + 1 LDAPFilter.unpack calls (Props/C18Decode.lean); "
+             "the three counts are compared with the implementation's (profiler hook) and executed source lines "
              "are checked against 100(n+1)^2+5000 on nested / wide / broken families (filter, schema post-processing, receive). Not covered by a "
              "theorem: constants of CPython's engine, the cost of one message decode and the schema post-processing (step-counted and timed only).",
         technique="Lean 4 proof (cost calculus for backtracking search trees; per-pattern bounds on translated regexes; call-count bound of the filter parser) + translator + deterministic step counts + timing search",
